@@ -97,8 +97,8 @@ PROPS = {
               'record before this pair and leaves it untouched where the pair is not joined (a non-joined iteration is silent); the function-call arm '
               '(FnCall, lifted) evaluates the arguments in order and then the body, keeps the induction hypothesis and returns exactly the builder state in which '
               'the evaluation of the body ended; blocks, for loops and calls are additionally proved to do no panic handling of their own (between the '
-              'recursive compile calls the builder is not touched, so no panic raised inside a statement, an iteration or a body can be dropped). Let statements '
-              'and the merge network of for-join loops (compile_bitonic_merge) are outside '
+              'recursive compile calls the builder is not touched, so no panic raised inside a statement, an iteration or a body can be dropped); the same for '
+              'the `let` and `let mut` statement arms. The merge network of for-join loops (compile_bitonic_merge) and the value part of assignments are outside '
               'every contract; a bounded differential search over operation trees and source programs on the real code stands in for them '
               'and for build/EvalPanic layout (labelled bounded).',
         note='Trusted: core builder contracts are proved in unit builder (run as part of this check); vstd specs of HashSet/arrays; '
@@ -109,10 +109,10 @@ PROPS = {
              'push / pop are external_body (they do not touch the record); derived Clone of CachedPanicResult returns an equal value (external_body); '
              'ghost out-parameters are added to the lifted arms. Unit access: unsigned_to_bits is external_body (layout proved by the C09 Kani harness); num_elems < 2^index_bits, '
              'elem_bits >= 1 for a non-empty array and no usize overflow of the mux-tree counters are preconditions; R5d (from=), R21. The callee definition of the FnCall arm '
-             '(prg.fn_defs lookup) is a parameter of the lifted function (R5c); parameter names and Env::let_in_current_scope are opaque. Unverified: the merge network of for-join loops, let statements.',
+             '(prg.fn_defs lookup) is a parameter of the lifted function (R5c); parameter names and Env::let_in_current_scope are opaque. Unverified: the merge network of for-join loops.',
         title='panic record: panic iff earlier or cond; never overwritten; first failure wins; untaken branch silent at merges',
         unverified=['the element selected / replaced by the mux trees of array reads and element assignments (value, not panic): bounded differential only',
-                    'for-join loop lowering (compile_bitonic_merge), let / assignment statements: bounded differential only',
+                    'for-join loop lowering (compile_bitonic_merge), the value written by assignment statements: bounded differential only',
                     'the induction over the whole of TypedExpr::compile is not closed mechanically (each branching arm is proved against the hypothesis)',
                     'EvalPanic::parse and build (panic record wiring to outputs): bounded differential search only'],
     ),
